@@ -237,6 +237,24 @@ REWRITES = [
     ),
 ]
 
+# Property-scoped, optional rewrites: applied only when the running property is listed, and skipped
+# (with a note) when the pattern is absent, so a renamed constant never turns a check inconclusive.
+ACTIVE_PROP = None
+SCOPED_REWRITES = [
+    # The parser's reservation limit is a capacity hint; shrinking it to 1 in the verification and replay
+    # builds leaves correct code unchanged and brings "the limit leaks into the entry count" (a clamp at
+    # 16 384 entries) inside the N <= 3 bound of the directory harnesses.
+    (
+        "src/directory.rs",
+        r"(?m)^const MAX_RESERVED_ENTRIES: usize = [0-9_]+;\n",
+        "#[cfg(not(any(kani, verif_replay)))]\nconst MAX_RESERVED_ENTRIES: usize = 16_384;\n"
+        "#[cfg(any(kani, verif_replay))]\nconst MAX_RESERVED_ENTRIES: usize = 1;\n",
+        {"C05"},
+        "directory.rs: reservation limit MAX_RESERVED_ENTRIES shrunk to 1 (capacity hint only)",
+    ),
+]
+SCOPED_APPLIED = []
+
 
 def build_overlay(scratch, sel, native=False):
     """Copy /repo's working tree and append the selected harness blocks. Returns (crate_dir, specs)."""
@@ -291,6 +309,18 @@ def build_overlay(scratch, sel, native=False):
             if n != count:
                 raise Inconclusive(f"overlay rewrite did not match exactly {count}x: {desc} (matched {n})")
         open(p, "w").write(new)
+    del SCOPED_APPLIED[:]
+    for file, rx, repl, props, desc in SCOPED_REWRITES:
+        if ACTIVE_PROP not in props:
+            continue
+        p = os.path.join(crate, file)
+        if not os.path.exists(p):
+            continue
+        src = open(p).read()
+        new, n = re.subn(rx, repl, src)
+        if n == 1:
+            open(p, "w").write(new)
+            SCOPED_APPLIED.append(desc)
     return crate, specs
 
 
